@@ -41,11 +41,23 @@ Buffer_init(BufferObject *self, PyObject *args, PyObject *kwargs)
         return -1;
 
     if (data != NULL) {
-        self->base = malloc(data_len);
+        self->base = malloc(data_len > 0 ? data_len : 1);
+        if (self->base == NULL) {
+            PyErr_NoMemory();
+            return -1;
+        }
         self->end = self->base + data_len;
         memcpy(self->base, data, data_len);
     } else {
-        self->base = malloc(capacity);
+        if (capacity < 0) {
+            PyErr_SetString(PyExc_ValueError, "Capacity must not be negative");
+            return -1;
+        }
+        self->base = malloc(capacity > 0 ? capacity : 1);
+        if (self->base == NULL) {
+            PyErr_NoMemory();
+            return -1;
+        }
         self->end = self->base + capacity;
     }
     self->pos = self->base;
